@@ -31,9 +31,10 @@ What the code does, including its quirks:
   is 39 bytes long (and, since repair 3f9132cd, the right one at least 7), else by the whole candidate as
   an integer (leading zero bytes do not count), and — since repair 1c75543b — by `bytes.Compare` of the
   whole candidates when those integers are equal;
-* a parameter candidate is any string `big.Int.SetString(·, 10)` accepts — an optional sign, then digits —
-  and `validateById` admits every negative number; the value that is persisted *and* (since repair
-  949e5958) kept in memory when it wins is `Bytes()` of it, the absolute value;
+* a parameter candidate is any string `big.Int.SetString(·, 10)` accepts — an optional sign, then digits;
+  `validateById` bounds its magnitude (since repair b0b4c2db; before, a negative number passed every upper
+  bound); the value that is persisted *and* (since repair 949e5958) kept in memory when it wins is
+  `Bytes()` of it, the absolute value;
 * the voting-power rank ignores a `sub` for an account that is not yet a voter in memory, ignores an
   `add` of 0, keeps zero deltas in `changes`, removes a voter whose power becomes 0, and keeps each
   bucket ordered by *descending* account id;
@@ -696,9 +697,9 @@ def validById (i : Issue) (n : Nat) : Bool :=
   | .bp => true
   | _ => decide (n ≤ maxAER)
 
-/-- validateById on a signed number: zero is refused, a negative number passes every upper bound. -/
-def validSigned (i : Issue) (v : Bool × Nat) : Bool :=
-  if v.2 = 0 then false else if v.1 then true else validById i v.2
+/-- validateById on a signed number: zero is refused and the upper bounds apply to the magnitude (since repair
+b0b4c2db; before it a negative number passed every upper bound, and a BPCOUNT of 10^21 made GetRankers panic). -/
+def validSigned (i : Issue) (v : Bool × Nat) : Bool := validById i v.2
 
 /-- A candidate of a parameter vote that is a number outside the parameter's range. -/
 def daoArgBad (i : Issue) (c : Bytes) : Bool :=
